@@ -1,6 +1,7 @@
 //! vmain — drivers for the checks that run against /repo/a2lfile as shipped.
 //! usage: vmain <PROPERTY> <quick|thorough>   |   vmain replay <file>
 
+mod c04;
 mod c12;
 mod c13;
 mod util;
@@ -9,6 +10,7 @@ use vcore::report::Run;
 
 fn run_property(id: &str, tier: &str) -> Option<Run> {
     Some(match id {
+        "C04" => c04::run(tier),
         "C12" => c12::run(tier),
         "C13" => c13::run(tier),
         _ => return None,
@@ -18,15 +20,20 @@ fn run_property(id: &str, tier: &str) -> Option<Run> {
 fn main() {
     vcore::explore::install_panic_hook();
     let args: Vec<String> = std::env::args().collect();
-    if args.len() < 3 {
+    if args.len() < 3 && !(args.len() == 2 && args[1] == "diag") {
         eprintln!("usage: vmain <PROPERTY> <quick|thorough> | vmain replay <file>");
         std::process::exit(2);
+    }
+    if args[1] == "diag" {
+        diag();
+        return;
     }
     if args[1] == "replay" {
         let txt = std::fs::read_to_string(&args[2]).expect("cannot read replay file");
         let v: serde_json::Value = serde_json::from_str(&txt).expect("replay file is not json");
         let prop = v["property"].as_str().unwrap_or("").to_string();
         let res = match prop.as_str() {
+            "C04" => c04::replay(&v["replay"]),
             "C12" => c12::replay(&v["replay"]),
             "C13" => c13::replay(&v["replay"]),
             _ => Err(format!("no replay for property {prop}")),
@@ -50,4 +57,40 @@ fn main() {
             std::process::exit(2);
         }
     }
+}
+
+pub mod corpus;
+
+#[allow(dead_code)]
+pub fn diag() {
+    use crate::util::*;
+    let g = corpus::grammar();
+    let mut all = corpus::carriers(&g);
+    all.extend(corpus::opt_docs(&g, 1));
+    all.extend(corpus::enum_docs(&g));
+    all.extend(corpus::rich_docs(&g));
+    all.extend(corpus::opt_pair_docs(&g, None));
+    println!("{} documents", all.len());
+    let mut bad = 0;
+    for d in &all {
+        let text = d.doc.text();
+        match load(&text, None, true) {
+            Loaded::Ok(_, log) => {
+                if !log.is_empty() {
+                    bad += 1;
+                    if bad < 30 {
+                        println!("WARN {} v{}: {}", d.label, d.doc.version, log[0]);
+                    }
+                }
+            }
+            Loaded::Err(e) => {
+                bad += 1;
+                if bad < 30 {
+                    println!("ERR {} v{}: {e}\n{text}", d.label, d.doc.version);
+                }
+            }
+            Loaded::Panic(p) => println!("PANIC {}: {p}", d.label),
+        }
+    }
+    println!("bad: {bad}");
 }
